@@ -46,7 +46,12 @@ func runC02(c *Ctx) {
 			// one key must never release - or keep serving - the value of the other
 			o.Cfg.Collide = lab.Pick(rng, []int{1, 2})
 		}
-		o.Name = fmt.Sprintf("c02-nk%d-cap%d-buf%d-w%d-d%.1f-collide%d", nk, o.Cfg.MaxCost, o.Cfg.SetBuf, o.Workers, o.DelayLevel, o.Cfg.Collide)
+		if i%4 == 2 {
+			// ShouldUpdate declines every other overwrite: a declined write must leave the resident value resident AND
+			// un-released (it is still being served)
+			o.Cfg.ShouldUpdate = "parity"
+		}
+		o.Name = fmt.Sprintf("c02-nk%d-cap%d-buf%d-w%d-d%.1f-collide%d-su%s", nk, o.Cfg.MaxCost, o.Cfg.SetBuf, o.Workers, o.DelayLevel, o.Cfg.Collide, o.Cfg.ShouldUpdate)
 		o.OpsPerPhase = c.N(3000, 4000) / o.Workers
 		c.J.Case(o)
 		res := runStress(c, o)
